@@ -20,8 +20,9 @@ sys.path.insert(0, HERE)
 from pyvc.contract import REGISTRY  # noqa
 from pyvc import run as RUN  # noqa
 from pyvc import lemmas as LEM  # noqa
+import pyvc.pandas_model  # noqa  (registers the assumed pandas contracts)
 
-CONTRACT_MODULES = ['filter_utils', 'generic_helper']
+CONTRACT_MODULES = ['filter_utils', 'generic_helper', 'validation']
 
 
 def load_contracts():
